@@ -468,7 +468,8 @@ def type_ok(at, i, f, verdict):
     if pre == 'nonringatom' and f.inring[i]:
         return False
     if pre == 'allylic':
-        verdict.append('allylic prefix')
+        # meaning pinned by the repository's own test_atom_prefix3 ('CC=C':
+        # the =CH- carbon is the 'allylic C'): the atom carries a double bond
         if not any(info[0] == BT.DOUBLE for _, info in f.nbrs[i]):
             return False
     return True
@@ -655,7 +656,7 @@ SYMBOLS = ['C', 'C', 'C', 'O', 'H', 'N', '$', '&', 'X', 'Pt', 'c', 'M', 'n',
 GEN_SUFFIX = [None, None, None, None, '?', '?', '.', ':', ':.', '+', '-',
               '+.', '-.']
 GEN_PREFIX = [None, None, None, None, None, 'aromatic', 'nonaromatic',
-              'ringatom', 'nonringatom']
+              'ringatom', 'nonringatom', 'allylic']
 GEN_BOND = ['single', 'single', 'single', 'double', 'triple', 'quadruple',
             'aromatic', 'ring', 'nonring', 'any', 'any', 'strong', 'partial']
 
@@ -723,7 +724,7 @@ def gen_fragment(rng, max_atoms=5, p_constraint=0.35, p_prefix=0.15,
 
 def uses_no_verdict_construct(ast):
     def t(at):
-        return at['suffix'] == '*' or at['prefix'] == 'allylic'
+        return at['suffix'] == '*'
     for a in ast['atoms']:
         if t(a['type']):
             return True
